@@ -6,7 +6,8 @@
 (* partition the histories exactly (the shards are disjoint and their union is everything).   *)
 EXTENDS Pool, Json
 
-CONSTANTS ShardK, ShardS, CfgNs, CfgRetries, CfgRoutes, CfgModes
+CONSTANTS ShardK, ShardS, CfgNs, CfgRetries, CfgRoutes, CfgModes,
+          SampleM     \* 1: emit every finished history; M > 1: emit the histories whose index sum is 0 modulo M
 
 Modes == << [p |-> TRUE, r |-> TRUE], [p |-> FALSE, r |-> FALSE], [p |-> FALSE, r |-> TRUE], [p |-> TRUE, r |-> FALSE] >>
 
@@ -22,11 +23,12 @@ MCReps  == {"n_invalid", "n_boom", "c_refused", "c_boom", "s_epipe", "s_oserr", 
 MCSmall == {"n_invalid", "c_refused", "r_eof", "r_boom", "ok_ka", "ok_close", "s503_ka", "r302_ka", "short"}
 MCTiny  == {"r_eof", "ok_ka", "ok_close", "short", "r302_ka"}
 MCTinyN == {"n_invalid", "r_eof", "ok_ka", "ok_close", "short", "r302_ka"}
+MCTinyS == {"n_invalid", "r_eof", "ok_ka", "ok_chunked", "short", "r302_ka", "s503_ra_bad", "s503_ra_boom"}
 MCMicro == {"r_eof", "ok_ka", "short"}
 MCMicroN == {"n_invalid", "r_eof", "ok_ka", "short"}
-MCDispMicro == {"read", "release", "stream"}
-MCDispAll == {"read", "read2rel", "release", "drain", "close", "stream"}
-MCDispSmall == {"read", "release", "close", "stream"}
+MCDispMicro == {"read", "release", "stream", "read1cl"}
+MCDispAll == {"read", "read2rel", "release", "drain", "close", "stream", "read1all", "read1n", "read1cl"}
+MCDispSmall == {"read", "release", "close", "stream", "read1cl"}
 MCNoDefects == {}
 MCTraitsNone == {}
 MCTraitsOldRelease == {"ReleaseLeavesUnfinishedOpen"}
@@ -39,12 +41,15 @@ MCMutFullNoClose == {"M_FullNoClose"}
 MCMutExcept == {"M_ExceptDropsHTTPException"}
 MCMutReleaseKeeps == {"M_ReleaseKeepsConn"}
 MCMutDropped == {"M_DroppedNotClosed"}
+MCSleepBeforeDrain == {"SleepBeforeDrain"}
+MCRead1EndDoesNotClose == {"Read1EndDoesNotClose"}
 MCReleaseOnlyIfConn == {"ReleaseOnlyIfConn"}
 MCPutWithoutCheckout == {"PutWithoutCheckout"}
 
 \* ---- sharding ----
 SymSeq == <<"n_invalid", "n_boom", "c_refused", "c_timeout", "c_boom", "s_epipe", "s_reset", "s_oserr", "s_boom", "r_timeout", "r_reset",
-            "r_eof", "r_garbage", "r_ssl", "r_boom", "ok_ka", "ok_close", "s503_ka", "s503_close", "r302_ka",
+            "r_eof", "r_garbage", "r_ssl", "r_boom", "ok_ka", "ok_close", "ok_chunked", "s503_ka", "s503_close",
+            "s503_ra_bad", "s503_ra_boom", "r302_ka",
             "r302_close", "short", "b_boom", "b_reset", "b_timeout", "x_stale">>
 SymIdx(s) == CHOOSE i \in 1..Len(SymSeq) : SymSeq[i] = s
 RIdx(r) == CASE r = "F" -> 0 [] r = "0" -> 1 [] r = "1" -> 2 [] OTHER -> 3
@@ -55,12 +60,29 @@ CfgIdx(c) == RIdx(c.retries) + 5 * (IF c.preload THEN 1 ELSE 0) + 3 * (IF c.rele
 ShardC == /\ (hist = <<>> /\ att # <<>>) => ((CfgIdx(cfg) + 3 * SymIdx(att[1])) % ShardK = ShardS)
           /\ (hist # <<>> /\ hist[1].how = "badarg") => (CfgIdx(cfg) % ShardK = ShardS)
 
+\* ---- sampling (quick tier): histories whose index sum is 0 modulo SampleM.  Every factor (configuration ordinal,
+\* outcome index of each attempt, disposal index of each disposal) runs over at least SampleM consecutive values, so
+\* for any two factors fixed some value of a third makes the sum 0: every pair of (configuration, outcome, disposal)
+\* values that occurs in the full product also occurs in the sample.
+\* (ordered so that MCDispMicro, MCDispSmall and MCDispAll are each an initial segment: consecutive indices)
+DispSeq == <<"read", "release", "stream", "read1cl", "close", "read2rel", "drain", "read1all", "read1n">>
+DispIdx(d) == CHOOSE i \in 1..Len(DispSeq) : DispSeq[i] = d
+ModeIdx(c) == CHOOSE m \in 1..4 : Modes[m].p = c.preload /\ Modes[m].r = c.release
+CfgOrd(c) == RIdx(c.retries) + 4 * (ModeIdx(c) - 1) + 16 * (c.n - 1) + 32 * (IF c.block THEN 1 ELSE 0)
+             + 64 * (IF c.route = "fwd" THEN 1 ELSE 0)
+RECURSIVE SeqSum(_)
+SeqSum(q) == IF q = <<>> THEN 0 ELSE q[1] + SeqSum(Tail(q))
+StepIdx(st) == IF st.op = "disp" THEN DispIdx(st.how)
+               ELSE IF st.op = "cut" THEN 1
+               ELSE SeqSum([i \in 1..Len(st.atts) |-> SymIdx(st.atts[i])]) + (IF st.how = "badarg" THEN 1 ELSE 0)
+Sampled == SampleM = 1 \/ (CfgOrd(cfg) + SeqSum([i \in 1..Len(hist) |-> StepIdx(hist[i])])) % SampleM = 0
+
 \* ---- emission ----
 Fin == [qlen |-> Len(queue),
         pooled |-> Cardinality({i \in 1..Len(queue) : queue[i] # NONE}),
         pooled_open |-> Cardinality({i \in 1..Len(queue) : QSocks[i] # 0}),
         dials |-> Len(socks)]
-Emit == (pc = "idle" /\ pc' = "done") =>
+Emit == (pc = "idle" /\ pc' = "done" /\ Sampled) =>
             PrintT(<<"SC", ToJson([cfg |-> cfg, steps |-> hist, fin |-> Fin])>>)
 NoEmit == TRUE
 =============================================================================
